@@ -28,6 +28,11 @@ class LoopCtx:
     def st(self):
         return self.cur
 
+    def map(self, name):
+        """the structured value of a local dict"""
+        from .externals import _snapshot
+        return _snapshot(self.eng, self.ctx, self.ctx.lookup(name))
+
 
 def loop_spec(eng, node):
     k = getattr(node, '_pyvc_loop', None)
@@ -69,6 +74,8 @@ def havoc_value(eng, ctx, name, v, kinds):
             return ctx.alloc('list', PySeq([View(arr, z3.IntVal(0), n)], 'list'))
         if h.kind == 'map' and isinstance(h.data, SV):
             return ctx.alloc('map', SV.fresh(h.data.ty, 'h_' + name))
+        if h.kind == 'map' and isinstance(h.data, dict) and not h.data:
+            return ctx.alloc('map', SV.fresh(MapT(Leaf('V')), 'h_' + name))
     if isinstance(v, PySeq):
         arr = smt.fresh('h_%s_arr' % name, z3.ArraySort(I, V))
         n = smt.fresh('h_%s_len' % name, I)
